@@ -53,10 +53,40 @@
 #include <sys/wait.h>
 #include <unistd.h>
 
+// every call of an exact predicate made by the Voronoi sources goes through this wrapper: the predicates read the 52-bit mantissa
+// of their arguments, which is the coordinate only for arguments in [1,2)
+#include "ExactGeometricTests.hpp"
+static long long c17_pred_calls = 0, c17_pred_bad = 0;
+static double c17_pred_first = 0.;
+static inline void c17_chk(const CoordinateVector<> &p) {
+  for (int a = 0; a < 3; ++a)
+    if (!(p[a] >= 1. && p[a] < 2.)) {
+      if (__sync_fetch_and_add(&c17_pred_bad, 1) == 0) c17_pred_first = p[a];
+    }
+}
+struct CheckedGeometricTests {
+  static char orient3d_adaptive(const CoordinateVector<> &a, const CoordinateVector<> &b, const CoordinateVector<> &c, const CoordinateVector<> &d) {
+    __sync_fetch_and_add(&c17_pred_calls, 1);
+    c17_chk(a); c17_chk(b); c17_chk(c); c17_chk(d);
+    return ExactGeometricTests::orient3d_adaptive(a, b, c, d);
+  }
+  static char insphere_adaptive(const CoordinateVector<> &a, const CoordinateVector<> &b, const CoordinateVector<> &c, const CoordinateVector<> &d, const CoordinateVector<> &e) {
+    __sync_fetch_and_add(&c17_pred_calls, 1);
+    c17_chk(a); c17_chk(b); c17_chk(c); c17_chk(d); c17_chk(e);
+    return ExactGeometricTests::insphere_adaptive(a, b, c, d, e);
+  }
+  static char insphere_exact(const CoordinateVector<> &a, const CoordinateVector<> &b, const CoordinateVector<> &c, const CoordinateVector<> &d, const CoordinateVector<> &e) {
+    __sync_fetch_and_add(&c17_pred_calls, 1);
+    c17_chk(a); c17_chk(b); c17_chk(c); c17_chk(d); c17_chk(e);
+    return ExactGeometricTests::insphere_exact(a, b, c, d, e);
+  }
+};
+#define ExactGeometricTests CheckedGeometricTests
 #define private public
 #include "NewVoronoiGrid.cpp"
 #undef private
 #include "NewVoronoiCellConstructor.cpp"
+#undef ExactGeometricTests
 #include "OldVoronoiCell.cpp"
 #include "OldVoronoiGrid.cpp"
 
@@ -159,7 +189,9 @@ int main() {
           printf("%s P %d %zu\n", tag, nbad == 0 ? 1 : 0, nbad);
           fflush(stdout); // what the class was given must be visible even if the construction never returns
           if (nbad == 0 || getenv("C15_FORCE") != nullptr) {
+            c17_pred_calls = c17_pred_bad = 0;
             g.compute_grid(nthr);
+            printf("%s Q %lld %lld %016llx\n", tag, c17_pred_calls, c17_pred_bad, H(c17_pred_first));
             dump(tag, g, n, q);
             if (nthr == 1) {
               NewVoronoiCellConstructor *con = new NewVoronoiCellConstructor();
